@@ -1537,7 +1537,9 @@ func (s *Store) processLTXStreamFrame(ctx context.Context, frame *LTXStreamFrame
 
 	// Skip frame if it already occurred on this node. This can happen if the
 	// replica node created the transaction and forwarded it to the primary.
-	if hdr.NodeID == s.ID() {
+	// If the primary's acknowledgement was lost, the transaction was rolled
+	// back here and must be applied like any other.
+	if hdr.NodeID == s.ID() && db.Pos().TXID >= hdr.MaxTXID {
 		dec := ltx.NewDecoder(src)
 		if err := dec.Verify(); err != nil {
 			return fmt.Errorf("verify duplicate ltx file: %w", err)
